@@ -91,6 +91,26 @@ def rotClauses [DecidableEq α] (keep m : Nat) (s : α) (b a : Dirs α) : List (
       (if decide (i + 1 < keep) && runUpTo b i then a.old (i + 1) == b.old i else a.old i == b.old i))),
    ("rot_at_most_n", (List.range m).all (fun i => decide (i < keep) || a.old i == b.old i))]
 
+/-- clauses for one step `b --op--> a` under retention `keep` (`a = none`: the call panicked;
+    `clean` says the directory holds nothing but the data folder and old.<i> folders) -/
+def rotStepClauses [DecidableEq α] (keep m : Nat) (b : Dirs α) (op : Op α) (a : Option (Dirs α)) (clean : Bool) :
+    List (String × Bool) :=
+  if keep = 0 then [] else
+  match b.data, op with
+  | some (.snap s), .clean =>
+    (match a with
+     | none => [("rot_no_panic", false)]
+     | some a => ("rot_cleaned", a.data == none && clean) :: rotClauses keep m s b a)
+  | some (.snap s), .save t =>
+    (match a with
+     | none => [("rot_no_panic", false)]
+     | some a => ("snapshot_saved", a.data == some (.snap t) && clean) :: rotClauses keep m s b a)
+  | _, .save t =>
+    (match a with
+     | none => [("rot_no_panic", false)]
+     | some a => [("snapshot_saved", a.data == some (.snap t) && clean)])
+  | _, _ => []
+
 /-- what the harness saw in the directory -/
 structure ODirs where
   data  : Option (Folder Nat)
@@ -100,32 +120,15 @@ structure ODirs where
 
 def ODirs.dirs (o : ODirs) : Dirs Nat := { data := o.data, old := fun i => o.old.getD i none }
 
-/-- clauses for one observed step `b --op--> a` (`a = none`: the call panicked) -/
-def rotStepClauses (keep m : Nat) (b : ODirs) (op : Op Nat) (a : Option ODirs) : List (String × Bool) :=
-  if keep = 0 then [] else
-  match b.data, op with
-  | some (.snap s), .clean =>
-    (match a with
-     | none => [("rot_no_panic", false)]
-     | some a => ("rot_cleaned", a.data == none && !a.extra) :: rotClauses keep m s b.dirs a.dirs)
-  | some (.snap s), .save t =>
-    (match a with
-     | none => [("rot_no_panic", false)]
-     | some a => ("snapshot_saved", a.data == some (.snap t) && !a.extra) :: rotClauses keep m s b.dirs a.dirs)
-  | _, .save t =>
-    (match a with
-     | none => [("rot_no_panic", false)]
-     | some a => [("snapshot_saved", a.data == some (.snap t) && !a.extra)])
-  | _, _ => []
-
 /-- retention in force before each step -/
-def keeps (k : Nat) : List (Op Nat) → List Nat
+def keeps (k : Nat) : List (Op α) → List Nat
   | [] => []
   | o :: t => k :: keeps (match o with | .setKeep k' => k' | _ => k) t
 
 def rotTraceClauses (m : Nat) : List Nat → ODirs → List (Op Nat) → List (Option ODirs) → List (String × Bool)
   | k :: ks, b, op :: ops, a :: as =>
-    rotStepClauses k m b op a ++ (match a with | some a' => rotTraceClauses m ks a' ops as | none => [])
+    rotStepClauses k m b.dirs op (a.map (·.dirs)) (match a with | some a' => !a'.extra | none => true) ++
+      (match a with | some a' => rotTraceClauses m ks a' ops as | none => [])
   | _, _, _, _ => []
 
 /-! ## (e) the peerstore file -/
